@@ -22,6 +22,11 @@
              during [hideAt, showAt); wait / pwait / popen run `waitPidV` / `procWaitV` / `popenWaitV` with the
              probe the translator found (`cfg.probeDirect` / `cfg.probe`); spec adds noResultWhileHidden /
              noGoneWhileHidden. The wait_procs model is view-free (`C15_check_gone_any_view`).
+   (seeded round 5, C15-8) every line may carry `wall = {base, steps:[[at, delta] …]}`: the WALL clock reads
+             steady time + base + the sum of the steps made so far; wait / pwait / popen / wprocs run `waitPidK` /
+             `procWaitK` / `popenWaitK` / `waitProcsFrontK` with every deadline computation on the clock the translator
+             found (`cfg.stopClock`, `cfg.checkClock`, `cfg.procsDeadlineClock`, `cfg.procsSliceClock`); spec adds
+             timeoutHonoured (over before start + timeout + 40 ms of STEADY time, whatever way the call ends).
    Every answer is {"model": …, "spec": …}: `spec` lists the Spec clauses violated by the model's
    observation and (when `obs` is supplied) by the implementation's observation. -/
 import PsutilModel.Base.Proto
@@ -29,6 +34,7 @@ import PsutilModel.Model.C15Gen
 import PsutilModel.Model.C15R2
 import PsutilModel.Model.C15R3
 import PsutilModel.Model.C15Probe
+import PsutilModel.Model.C15Clock
 import PsutilModel.Spec.C15
 open Lean Psutil Psutil.Proto Psutil.C15
 
@@ -69,6 +75,23 @@ def asView (j : Json) : R View := do
     let h ← ratF v "hideAt"
     let s ← optRatF v "showAt"
     pure (View.window h s)
+
+/-- (seeded round 5, C15-8) the wall clock of the case: `wall = {base, steps}`; absent = a wall clock that agrees
+    with the steady clock and is never stepped -/
+def asWall (j : Json) : R Wall := do
+  match ← optF pure j "wall" with
+  | none => pure (Wall.stepped 0 [])
+  | some v =>
+    if v.isNull then pure (Wall.stepped 0 []) else
+    let b ← ratF v "base"
+    let steps ← listF (fun e => do
+        match e.getArr? with
+        | .ok #[a, d] => do
+          let a ← asRat a
+          let d ← asRat d
+          pure (a, d)
+        | _ => .error "wall step must be [at, delta]") v "steps"
+    pure (Wall.stepped b steps)
 
 def eintrFree (j : Json) : R Bool := do
   let pat ← optF (asList asBool) j "eintr"
@@ -122,6 +145,7 @@ def handleWait (j : Json) : R Json := do
   let env ← asEnv envJ
   let clean0 ← eintrFree envJ
   let view ← asView envJ
+  let wall ← asWall j
   let pidI ← intF j "pid"
   let pid := pidI.toNat
   let timeout ← optRatF j "timeout"
@@ -130,14 +154,16 @@ def handleWait (j : Json) : R Json := do
   let nwait0 := (← optF asNat j "nwait0").getD 0
   -- the integer-pid model: the pid test is the one the translator found (facts pidRejects*)
   -- (seeded round 5) non-children are polled with the probe the translator found, under the case's procfs view
-  let (o, s) := waitPidV cfg cfg.probeDirect env view pidI timeout fuel start nwait0
+  -- (C15-8) every deadline computation reads the clock the translator found, under the case's wall clock
+  let (o, s) := waitPidK cfg cfg.probeDirect env view cfg.stopClock cfg.checkClock wall pidI timeout fuel start nwait0
   let ask : Spec.Ask := ⟨env, pid, timeout, start⟩
   let clean := clean0 && decide (0 < pidI) && !(negative timeout)
   let valid := decide (0 < pidI) && !(negative timeout)
   let mobs : Spec.Obs := ⟨o, s.now, s.sleeps⟩
   let judge (ob : Spec.Obs) : List String :=
     (if Spec.nonPositivePidRefused pidI start ob then [] else ["nonPositivePidRefused"]) ++
-    (if pidI < 0 then [] else Spec.violations ask ob clean ++ Spec.extraViolations ask ob ++ Spec.viewViolations ask view ob)
+    (if pidI < 0 then [] else Spec.violations ask ob clean ++ Spec.extraViolations ask ob ++ Spec.viewViolations ask view ob ++
+      Spec.clockViolations ask ob)
   -- clauses at FULL strength over the stated quantifier (EINTR on any call): reported separately
   let full (ob : Spec.Obs) : List String :=
     if pidI < 0 then [] else
@@ -183,11 +209,11 @@ def asPCall (j : Json) : R PCall := do
          osCalls := (← optF asNat j "oscalls").getD 0 }
 
 /-- run the calls in sequence on one object; per call: model obs, model/impl violations -/
-def runPCalls (env : Env) (view : View) (clean0 : Bool) (fuel : Nat) :
+def runPCalls (env : Env) (view : View) (wall : Wall) (clean0 : Bool) (fuel : Nat) :
     List PCall → PObj → Option Outcome → Option Outcome → List Json → List Json
   | [], _, _, _, acc => acc.reverse
   | c :: cs, p, firstM, firstI, acc =>
-    let r := procWaitV cfg cfg.probe env view c.timeout fuel c.at_ p
+    let r := procWaitK cfg cfg.probe env view cfg.stopClock cfg.checkClock wall c.timeout fuel c.at_ p
     let ask : Spec.Ask := ⟨env, p.pid, c.timeout, c.at_⟩
     let clean := clean0 && decide (0 < p.pid) && !(negative c.timeout)
     let mobs : Spec.Obs := ⟨r.out, r.now, r.sleeps⟩
@@ -199,7 +225,8 @@ def runPCalls (env : Env) (view : View) (clean0 : Bool) (fuel : Nat) :
         (if Spec.negativeIsValueError ask ob then [] else ["negativeIsValueError"]) ++
         (if negative c.timeout then [] else
           if Spec.cachedOk f ob c.at_ osCalls then [] else ["cached"])
-      | none => Spec.violations ask ob clean ++ Spec.extraViolations ask ob ++ Spec.viewViolations ask view ob
+      | none => Spec.violations ask ob clean ++ Spec.extraViolations ask ob ++ Spec.viewViolations ask view ob ++
+          Spec.clockViolations ask ob
     let mV := later firstM mobs (r.obj.nWait - p.nWait)
     let iV := c.obs.map fun ob => later firstI ob c.osCalls
     let isRes (o : Outcome) : Bool := match o with | .code _ | .none => true | _ => false
@@ -212,7 +239,7 @@ def runPCalls (env : Env) (view : View) (clean0 : Bool) (fuel : Nat) :
       ("model", jObj [("out", jOutcome r.out), ("ret", jRat r.now), ("sleeps", jList jRat r.sleeps),
                       ("nwait", jNat (r.obj.nWait - p.nWait))]),
       ("spec", specPart mV iV)]
-    runPCalls env view clean0 fuel cs r.obj firstM' firstI' (ans :: acc)
+    runPCalls env view wall clean0 fuel cs r.obj firstM' firstI' (ans :: acc)
 
 def handlePWait (j : Json) : R Json := do
   let envJ ← field j "env"
@@ -224,7 +251,7 @@ def handlePWait (j : Json) : R Json := do
   let calls ← listF asPCall j "calls"
   let p : PObj := ⟨pid, cached0, 0, none⟩
   let first := cached0.map Outcome.ofValue
-  let outs := runPCalls env (← asView envJ) clean0 fuel calls p first first []
+  let outs := runPCalls env (← asView envJ) (← asWall j) clean0 fuel calls p first first []
   return jObj [("model", Json.arr (outs.map fun o => (o.getObjValD "model")).toArray),
                ("spec", Json.arr (outs.map fun o => (o.getObjValD "spec")).toArray)]
 
@@ -243,13 +270,13 @@ def asQCall (j : Json) : R QCall := do
 
 /-- `Popen.wait` calls in sequence on one object. `storedI` = the returncode the IMPLEMENTATION's
     object was last seen to hold, `firstM/firstI` = the first result (None) a call gave. -/
-def runQCalls (env : Env) (view : View) (clean0 : Bool) (fuel : Nat) :
+def runQCalls (env : Env) (view : View) (wall : Wall) (clean0 : Bool) (fuel : Nat) :
     List QCall → PopenObj → Option Int → Option Outcome → Option Outcome → List Json → List Json
   | [], _, _, _, _, acc => acc.reverse
   | c :: cs, q, storedI, firstM, firstI, acc =>
     let q0 := match c.ext with | some v => q.extSet v | none => q
     let storedI0 := match c.ext with | some v => some v | none => storedI
-    let r := popenWaitV cfg cfg.probe env view c.timeout fuel c.at_ q0
+    let r := popenWaitK cfg cfg.probe env view cfg.stopClock cfg.checkClock wall c.timeout fuel c.at_ q0
     let ask : Spec.Ask := ⟨env, q0.proc.pid, c.timeout, c.at_⟩
     let clean := clean0 && decide (0 < q0.proc.pid) && !(negative c.timeout)
     let mobs : Spec.Obs := ⟨r.out, r.now, r.sleeps⟩
@@ -267,7 +294,8 @@ def runQCalls (env : Env) (view : View) (clean0 : Bool) (fuel : Nat) :
         (match first with
          | some f => negV ++ (if negative c.timeout then [] else
                                if Spec.cachedOk f ob c.at_ osCalls then [] else ["cached"])
-         | none => Spec.violations ask ob clean ++ Spec.extraViolations ask ob ++ Spec.viewViolations ask view ob) ++
+         | none => Spec.violations ask ob clean ++ Spec.extraViolations ask ob ++ Spec.viewViolations ask view ob ++
+             Spec.clockViolations ask ob) ++
         (match rcAfter with
          | some a => if Spec.popenStoredOk ob a then [] else ["popenStores"]
          | none => [])
@@ -284,7 +312,7 @@ def runQCalls (env : Env) (view : View) (clean0 : Bool) (fuel : Nat) :
       ("model", jObj [("out", jOutcome r.out), ("ret", jRat r.now), ("sleeps", jList jRat r.sleeps),
                       ("nwait", jNat (r.obj.proc.nWait - q0.proc.nWait)), ("rc", jVal r.obj.subRc)]),
       ("spec", specPart mV iV)]
-    runQCalls env view clean0 fuel cs r.obj storedI' firstM' firstI' (ans :: acc)
+    runQCalls env view wall clean0 fuel cs r.obj storedI' firstM' firstI' (ans :: acc)
 
 def handlePopen (j : Json) : R Json := do
   let envJ ← field j "env"
@@ -294,7 +322,7 @@ def handlePopen (j : Json) : R Json := do
   let fuel ← natF j "fuel"
   let calls ← listF asQCall j "calls"
   let q : PopenObj := ⟨⟨pid, none, 0, none⟩, none⟩
-  let outs := runQCalls env (← asView envJ) clean0 fuel calls q none none none []
+  let outs := runQCalls env (← asView envJ) (← asWall j) clean0 fuel calls q none none none []
   return jObj [("model", Json.arr (outs.map fun o => (o.getObjValD "model")).toArray),
                ("spec", Json.arr (outs.map fun o => (o.getObjValD "spec")).toArray)]
 
@@ -371,6 +399,7 @@ def handleWProcs (j : Json) : R Json := do
   let hasCb := cb != .absent
   let flat ← listF asNat j "flat"
   let fuel ← natF j "fuel"
+  let wall ← asWall j
   let dflt : Env := ⟨.neverExisted, none, fun _ => false⟩
   let envOf : Nat → Env := fun pid => match ps.find? (·.pid == pid) with
     | some p => p.env
@@ -380,8 +409,8 @@ def handleWProcs (j : Json) : R Json := do
     | some p =>
       let q0 : PopenObj := ⟨⟨pid, none, 0, none⟩, if p.popen then p.rc0 else none⟩
       if p.prewait then
-        (if p.popen then (popenWait cfg p.env (some 0) fuel start q0).obj
-         else ⟨(procWait cfg p.env (some 0) fuel start q0.proc).obj, none⟩)
+        (if p.popen then (popenWaitK cfg .kill p.env View.full cfg.stopClock cfg.checkClock wall (some 0) fuel start q0).obj
+         else ⟨(procWaitK cfg .kill p.env View.full cfg.stopClock cfg.checkClock wall (some 0) fuel start q0.proc).obj, none⟩)
       else q0
     | none => ⟨⟨pid, none, 0, none⟩, none⟩
   let isPopen : Nat → Bool := fun pid => match ps.find? (·.pid == pid) with
@@ -413,7 +442,7 @@ def handleWProcs (j : Json) : R Json := do
   let refusal := Spec.wpRefusalM timeout hashable (cb != .absent) (cb == .callable)
   let specJ (mV : List String) : Json :=
     jObj [("model_violations", jStrs mV), ("impl_violations", jOpt jStrs implV), ("refusal", jRefusal refusal)]
-  match waitProcsFrontM cfg envOf lst hashable timeout cb (orderOf flat) fuel m0 with
+  match waitProcsFrontK cfg envOf wall lst hashable timeout cb (orderOf flat) fuel m0 with
   | .error o =>
     return jObj [("model", jObj [("kind", "raised"), ("out", jWPErr o)]),
                  ("spec", specJ [])]
@@ -446,7 +475,11 @@ def handle (_ : Unit) (j : Json) : R (Unit × Json) := do
       ("pollAsksHook", Json.bool cfg.pollAsksHook), ("hookDefaultIsKill", Json.bool cfg.hookDefaultIsKill),
       ("linuxWaitPassesNoHook", Json.bool cfg.linuxWaitPassesNoHook),
       ("probe", if cfg.probe == .kill then "kill" else "procfs"),
-      ("probeDirect", if cfg.probeDirect == .kill then "kill" else "procfs")])
+      ("probeDirect", if cfg.probeDirect == .kill then "kill" else "procfs"),
+      ("stopClock", if cfg.stopClock == .steady then "steady" else "wall"),
+      ("checkClock", if cfg.checkClock == .steady then "steady" else "wall"),
+      ("procsDeadlineClock", if cfg.procsDeadlineClock == .steady then "steady" else "wall"),
+      ("procsSliceClock", if cfg.procsSliceClock == .steady then "steady" else "wall")])
   else if op == "causes" then
     return ((), jList (fun c => Json.arr #[jNat c.status, jInt c.value]) Spec.allCauses)
   else if op == "decode" then
